@@ -314,7 +314,7 @@ pub fn run(tier: &str) -> Report {
     }
     // deep structured positions n = nmax+1 .. 28
     let mut deep = 0u64;
-    for n in (nmax + 1)..=28 {
+    for n in (nmax + 1)..=29 {
         let pos = deep_positions(n);
         let pitch = (tri_area / 4f64.powi(n as i32)).sqrt();
         for oi in 0..6 {
@@ -361,7 +361,7 @@ pub fn run(tier: &str) -> Report {
     rep.set("traces_validated_against_impl", json!(agreed));
     rep.set("evaluations", json!(evals + deep));
     rep.set("distinct_nontrivial", json!(evals + deep));
-    rep.set("rule", json!(format!("all positions s < 4^n for n = 1..{} x 6 orientations ({} positions): pentagon centres pairwise further apart than 0.2 cell pitches (sort + sweep), inside the quintant triangle, and ij_to_s(centre) == s; structured positions for n = {}..28 ({}); digit-walk Mealy machine (model) compared bit for bit with s_to_anchor_internal on all s < 4^n, n <= {}, 3 orientation classes (traces_validated = positions agreed), then its pair automaton explored for two different inputs with equal outputs (all depths)", nmax, evals, nmax + 1, deep, cn)));
+    rep.set("rule", json!(format!("all positions s < 4^n for n = 1..{} x 6 orientations ({} positions): pentagon centres pairwise further apart than 0.2 cell pitches (sort + sweep), inside the quintant triangle, and ij_to_s(centre) == s; structured positions for n = {}..29 ({}); digit-walk Mealy machine (model) compared bit for bit with s_to_anchor_internal on all s < 4^n, n <= {}, 3 orientation classes (traces_validated = positions agreed), then its pair automaton explored for two different inputs with equal outputs (all depths)", nmax, evals, nmax + 1, deep, cn)));
     rep.set("exhaustive", json!(true));
     rep.set("exhaustive_scope", json!(format!("all positions at depth <= {} for all 6 orientations; the bound model for every depth", nmax)));
     rep.set("model_bound", json!(bound));
